@@ -765,6 +765,54 @@ def oracle_corpus(check, tier):
                 oracle_verdicts(check, W, 0, 0, body, ['elem:string:facet'], 'corpus')
 
 
+def facet_corpus():
+    """one class with one member per (leaf class, single facet): the boundary of every facet is
+    probed on every run, whatever the seed"""
+    out = []
+    I, T, Dc = (lambda z: ['int', z]), (lambda t: ['text', t]), (lambda d: ['dec', d])
+    singles = [
+        ('integer', {'ge': I(3)}), ('integer', {'gt': I(3)}), ('integer', {'le': I(9)}), ('integer', {'lt': I(9)}),
+        ('integer', {'values': [I(2), I(5)]}), ('byte', {}), ('unsignedShort', {'le': I(300)}), ('long', {'ge': I(-5)}),
+        ('nonNegativeInteger', {'lt': I(4)}),
+        ('string', {'min_len': 2}), ('string', {'max_len': 3}), ('string', {'min_len': 2, 'max_len': 2}),
+        ('string', {'pattern': '[a-z]+'}), ('string', {'values': [T('a'), T('bc')]}), ('anyURI', {'max_len': 5}),
+        ('decimal', {'ge': Dc('0.5')}), ('decimal', {'lt': Dc('1E+2')}), ('decimal', {'values': [Dc('1.50'), Dc('2E+1')]}),
+        ('double', {'gt': ['dbl', '0.5']}), ('float', {'le': ['dbl', '2.5']}),
+        ('date', {'ge': ['date', '2020-02-28']}), ('time', {'lt': ['time', '12:00:00']}),
+        ('dateTime', {'le': ['dt', '2020-02-28T12:00:00+00:00']}),
+    ]
+    for i, (base, fa) in enumerate(singles):
+        leaf = {'base': base, 'facets': fa}
+        f = {'name': 'v', 'ty': ['leaf', leaf], 'min': 0, 'max': 3, 'nillable': False, 'kind': 'elem', 'choice': None, 'default': None}
+        out.append((leaf, {'tns': 'urn:tns', 'classes': [{'ns': 'urn:t', 'name': 'K0', 'parent': None, 'fields': [f]}]}))
+    return out
+
+
+def oracle_facets(check, tier):
+    from lxml import etree
+    rng = check.rng
+    for leaf, desc in facet_corpus():
+        W = World(rng, desc, 'xml')
+        if W.compile_error:
+            check.fail('C06|compile|facet|%s|%s' % (leaf['base'], ','.join(sorted(leaf['facets']))),
+                       'the schema Spyne generates does not compile: ' + W.compile_error, {'kind': 'compile', 'proto': 'xml', 'universe': desc})
+            continue
+        tag = 'facet|%s|%s' % (leaf['base'], ','.join(sorted(leaf['facets'])) or 'none')
+        for want in (True, False):
+            seen = set()
+            for _ in range(12):
+                v = G.gen_leaf_value(rng, leaf, want)
+                if v is None or json.dumps(v) in seen:
+                    continue
+                seen.add(json.dumps(v))
+                if want and not dec_exponent(v):
+                    oracle_emitted(check, W, 0, 0, ['obj', 0, [['list', [v]]]], tag)
+                x = etree.Element('{urn:tns}x')
+                etree.SubElement(x, '{urn:t}v').text = G.canon_text(leaf['base'], v)
+                m, body = wrap('xml', desc['tns'], 'm0', x)
+                oracle_verdicts(check, W, 0, 0, body, [] if want else ['elem:%s:facet' % leaf['base']], tag)
+
+
 def oracle_emitted_tagged(check, W, cid, v, key):
     rp = {'kind': 'emitted', 'proto': W.proto, 'universe': W.desc, 'cid': cid, 'value': v, 'which': 'request'}
     req = W.request(cid, v)
@@ -787,6 +835,7 @@ def run(check):
         if not ok:
             check.mismatch('build', log[-1500:])
     oracle_corpus(check, tier)
+    oracle_facets(check, tier)
     for ui in range(8 if tier == 'quick' else 60):
         corr_universe(check, ui, tier)
     for ui in range(12 if tier == 'quick' else 90):
